@@ -12,11 +12,60 @@ pub(crate) fn lossy_stub(_v: &[u8]) -> std::borrow::Cow<'_, str> {
     std::borrow::Cow::Borrowed("")
 }
 
+/// Stand-in for `core::str::from_utf8` (the real one branches on pointer alignment and reads
+/// word-wise, which CBMC case-splits into the ground): a byte-at-a-time validator for inputs of at
+/// most 4 bytes that accepts EXACTLY the well-formed UTF-8 sequences of the Unicode standard
+/// (table 3-7: no overlong forms, no surrogates, nothing above U+10FFFF).  `Utf8Error` has private
+/// fields, so the error value is produced by the real `from_utf8_mut` on a constant ill-formed input.
+pub(crate) fn from_utf8_stub(v: &[u8]) -> Result<&str, std::str::Utf8Error> {
+    assert!(v.len() <= 4, "model bound: from_utf8 stand-in handles at most 4 bytes");
+    let n = v.len();
+    let cont = |b: u8| b >= 0x80 && b <= 0xBF;
+    let mut ok = true;
+    let mut i = 0;
+    let mut r = 0;
+    while r < 4 {
+        if ok && i < n {
+            let b = v[i];
+            if b < 0x80 {
+                i += 1;
+            } else if b >= 0xC2 && b <= 0xDF {
+                if i + 1 < n && cont(v[i + 1]) { i += 2; } else { ok = false; }
+            } else if b >= 0xE0 && b <= 0xEF {
+                let lo = if b == 0xE0 { 0xA0 } else { 0x80 };
+                let hi = if b == 0xED { 0x9F } else { 0xBF };
+                if i + 2 < n && v[i + 1] >= lo && v[i + 1] <= hi && cont(v[i + 2]) { i += 3; } else { ok = false; }
+            } else if b >= 0xF0 && b <= 0xF4 {
+                let lo = if b == 0xF0 { 0x90 } else { 0x80 };
+                let hi = if b == 0xF4 { 0x8F } else { 0xBF };
+                if i + 3 < n && v[i + 1] >= lo && v[i + 1] <= hi && cont(v[i + 2]) && cont(v[i + 3]) { i += 4; } else { ok = false; }
+            } else {
+                ok = false;
+            }
+        }
+        r += 1;
+    }
+    if ok {
+        Ok(unsafe { std::str::from_utf8_unchecked(v) })
+    } else {
+        Err(utf8_error())
+    }
+}
+fn utf8_error() -> std::str::Utf8Error {
+    // `from_utf8_mut` is a different function (not stubbed): run it on a constant ill-formed byte
+    let mut bad = [0xFFu8; 1];
+    match std::str::from_utf8_mut(&mut bad) {
+        Err(e) => e,
+        Ok(_) => unreachable!(),
+    }
+}
+
 macro_rules! c_harness { ($uw:expr, $(#[$m:meta])* fn $n:ident() $b:block) => {
     #[kani::proof]
     #[kani::unwind($uw)]
     #[kani::stub(alloc::fmt::format, format_stub)]
     #[kani::stub(std::string::String::from_utf8_lossy, lossy_stub)]
+    #[kani::stub(core::str::from_utf8, from_utf8_stub)]
     $(#[$m])* fn $n() $b
 } }
 
